@@ -138,7 +138,13 @@ def clause_records(name: str, prog: Program) -> List[dict]:
             return json.loads(cache.read_text())
         except Exception:
             pass
-    recs = _compute(name, prog)
+    try:
+        recs = _compute(name, prog)
+    except Exception as e:  # noqa: BLE001 - a clause that cannot be completed leaves the host undecided, it does not abort it
+        owner = CLAUSES[name][0]
+        return [{"__counts__": {}, "__short__": {}},
+                {"rule": f"{owner}.*", "key": "not-completed", "construct": f"{name} clause of {owner}", "status": "undecided",
+                 "detail": f"the clause could not be completed: {type(e).__name__}: {str(e)[:300]}", "where": ""}]
     try:
         cache.parent.mkdir(exist_ok=True)
         if str(prog.repo) == "/repo":
@@ -180,8 +186,9 @@ def run_contracts(chk: Check, prog: Program, names: List[str]) -> None:
         where = f"clause of {owner} ({name})"
         if head["__short__"]:
             chk.undecided(rid, f"{rid}:{name}:coverage", f"{name} clause", f"rules below their instance minimum: {head['__short__']}", where)
-        chk.ok(rid, f"{rid}:{name}", f"{name} clause of {owner}: {n_ok} obligations hold",
-               f"per rule: {head['__counts__']}", where)
+        if n_ok:
+            chk.ok(rid, f"{rid}:{name}", f"{name} clause of {owner}: {n_ok} obligations hold",
+                   f"per rule: {head['__counts__']}", where)
         for r in rest:
             key = f"{rid}:{name}:{r['key']}"
             if r["status"] == "fail":
